@@ -107,7 +107,9 @@ ROUND6 = {
 }
 for _k, _v in ROUND6.items():
     if _v:
-        CLAIMED[_k]["text"] = CLAIMED[_k]["text"].replace(" Sampling, not proof.", f" Round 6 (DESIGN §13.6): {_v}. Sampling, not proof.")
+        _t = CLAIMED[_k]["text"]
+        _i = _t.rfind(" Sampling, not proof")
+        CLAIMED[_k]["text"] = _t[:_i] + f" Round 6 (DESIGN §13.6): {_v}." + _t[_i:]
 
 PENDING_IDS = ["C01", "C02", "C03", "C04", "C05", "C12", "C13", "C14", "C16"]
 PENDING = {p: "check not built yet in this session (claimed in DESIGN.md; will move to checks when its oracle runs clean)" for p in PENDING_IDS if p not in CLAIMED}
